@@ -275,7 +275,46 @@ def parse_start(text, allow_big=False):
         numpify(root)
     from ..workloads import copies as _CP
 
+    if _STARTS[0] % 9 == 4:
+        collide_with_future_ids(root)
+    elif _STARTS[0] % 11 == 5 and S.size(sh) <= 40:
+        root = twin_siblings(root)
     return _CP.routed(root, "start-tree", every=7)
+
+
+def collide_with_future_ids(root):
+    """node ids come from a process-wide counter: a tree that was pickled in another process (or built before the
+    counter was where it is now) carries ids that the nodes created NEXT in this process will receive as well.
+    The start tree is renumbered with exactly those ids."""
+    import re
+    from mathy_core.tree import BinaryTreeNode
+    from .. import core
+
+    m = re.match(r"^(.*?)(\d+)$", str(BinaryTreeNode().id))
+    if not m:
+        return
+    prefix, n = m.group(1), int(m.group(2))
+    for i, node in enumerate(S.nodes_preorder(root)):
+        node.id = f"{prefix}{n + 1 + i}"
+    core.REC.arm("start:ids-of-the-nodes-created-next")
+
+
+def twin_siblings(root):
+    """an expression next to its own clone (clone() keeps the ids): same-id nodes as siblings, and as cousins all
+    the way down -- what a caller gets from t + t.clone(), or from doubling one side of an equation"""
+    from mathy_core import expressions as E
+    from .. import core
+
+    try:
+        if isinstance(root, E.EqualExpression):
+            l, r = root.left, root.right
+            new = E.EqualExpression(E.AddExpression(l.clone(), l.clone()), E.MultiplyExpression(E.ConstantExpression(2), r.clone()))
+        else:
+            new = E.AddExpression(root.clone(), root.clone())
+    except Exception:
+        return root
+    core.REC.arm("start:an-expression-next-to-its-clone")
+    return new
 
 
 def numpify(root):
